@@ -65,7 +65,12 @@ func (s *Slot) OnEntryBlocked(ctx *base.EntryContext, blockError *base.BlockErro
 }
 
 func (s *Slot) OnCompleted(ctx *base.EntryContext) {
-	rt := util.CurrentTimeMillis() - ctx.StartTime()
+	// (the wall clock may have been set back since the entry started: a duration is not negative, and the
+	// unsigned difference would come out as about 1.8e19 ms)
+	rt := uint64(0)
+	if now := util.CurrentTimeMillis(); now > ctx.StartTime() {
+		rt = now - ctx.StartTime()
+	}
 	ctx.PutRt(rt)
 	s.recordCompleteFor(ctx.StatNode, ctx.Input.BatchCount, rt, ctx.Err())
 	if ctx.Resource.FlowType() == base.Inbound {
